@@ -59,7 +59,7 @@ var c13Ext = []extCase{
 	{"pmd+c=", []string{"permessage-deflate; client_no_context_takeover="}, [3]int{0, 0, 0}},
 }
 
-var c13Requested = [][]string{nil, {"chat"}, {"chat", "v2.proto"}, {"Chat.V2", "base64url.bearer.TOKEN-AbC"}}
+var c13Requested = [][]string{nil, {"chat"}, {"chat", "v2.proto"}, {"Chat.V2", "base64url.bearer.TOKEN-AbC"}, {}}
 
 // (the last four are pieces of requested names or of the requested list as a whole: asked for by nobody)
 var c13SubResp = []string{"", "chat", "v2.proto", "zzz", "CHAT", "chat, v2.proto", "cha", "v2", "proto", "chat,v2.proto"}
@@ -68,7 +68,7 @@ func init() {
 	fw.Register(&fw.Prop{
 		ID:    "C13",
 		Level: "exploration",
-		Rule: "cases = the FULL cross product of a response grammar answered by a recording RoundTripper: status (11) x Connection variants (12) x Upgrade variants (9) x Sec-WebSocket-Accept variants (6: right, for another key, absent, case changed, empty, duplicated) x subprotocol answers (10, four of them pieces of requested names) x extension headers (16, three with a flag parameter that carries a value) x client compression mode (3) x requested subprotocol lists (4, one with mixed-case names); " +
+		Rule: "cases = the FULL cross product of a response grammar answered by a recording RoundTripper: status (11) x Connection variants (12) x Upgrade variants (9) x Sec-WebSocket-Accept variants (6: right, for another key, absent, case changed, empty, duplicated) x subprotocol answers (10, four of them pieces of requested names) x extension headers (16, three with a flag parameter that carries a value) x client compression mode (3) x requested subprotocol lists (5: none, an empty list, one with mixed-case names); " +
 			"every Dial's request is inspected (GET, Connection/Upgrade/version headers, 16 byte base64 key unique across all dials of the process, subprotocol and extension offer per mode, caller headers and Host override preserved, caller's header map unchanged, ws/wss/http/https). The oracle is an independent predicate over the generated response. distinct key = (must-connect?, first failing requirement, mode, subprotocol relation, extension case)",
 		Exhaustive:  func(string) bool { return true },
 		Gen:         c13Gen,
@@ -335,6 +335,9 @@ func c13CheckRequest(r *fw.R, d c13Desc, req *http.Request, hdr, hdrCopy http.He
 	}
 	wantSub := strings.Join(d.Requested, ",")
 	gotSub := strings.Join(tokens(req.Header.Values("Sec-WebSocket-Protocol")), ",")
+	if _, present := req.Header["Sec-Websocket-Protocol"]; present && len(d.Requested) == 0 {
+		bad("subprotocols", fmt.Sprintf("no subprotocol was requested but the request carries a Sec-WebSocket-Protocol header (%q)", req.Header["Sec-Websocket-Protocol"]))
+	}
 	if gotSub != wantSub {
 		bad("subprotocols", fmt.Sprintf("offered %q, want %q", gotSub, wantSub))
 	}
